@@ -532,6 +532,17 @@ class ExprMixin:
         if len(n.ops) != 1 or not isinstance(n.ops[0], (ast.Eq, ast.Is, ast.NotEq, ast.IsNot)):
             return None
         a, b = n.left, n.comparators[0]
+
+        def is_type_call(x):
+            return isinstance(x, ast.Call) and isinstance(x.func, ast.Name) and x.func.id == 'type' and len(x.args) == 1
+        if is_type_call(a) and is_type_call(b):
+            # type(x) is type(y): the two objects have the same dynamic class
+            x, y = self.ev(a.args[0], st), self.ev(b.args[0], st)
+            if isinstance(x.t, T.Ref) and isinstance(y.t, T.Ref):
+                r = z3.And(x.z != 0, y.z != 0, self.eng.cls_of(x.z) == self.eng.cls_of(y.z))
+                if isinstance(n.ops[0], (ast.NotEq, ast.IsNot)):
+                    r = z3.Not(r)
+                return SV(T.Bool, r)
         if not (isinstance(a, ast.Call) and isinstance(a.func, ast.Name) and a.func.id == 'type' and len(a.args) == 1
                 and isinstance(b, ast.Name) and b.id in ('str', 'int', 'bool', 'float', 'list', 'dict', 'tuple')):
             return None
